@@ -2,10 +2,18 @@
 // lemmas/callgraph_build.rs -- proof-only lemmas of unit `callgraph_build` (all proved by Verus, none trusted).
 // Part 1: the first loop (nodes) -- the HashMap is the inverse of the node labelling.
 // Part 2: the second loop nest (edges) -- one step (edge added / jump skipped), end of a block, end of a function.
+// Part 2b: the same, quantified over graph / map / ghost sequence (callable at the head of a loop body).
 // Part 3: composition with the query of unit callgraph: call-graph paths <-> chains of calls of the program.
 // ---------------------------------------------------------------------------
 
 // ---- Part 1 ---------------------------------------------------------------------------------------------
+
+/// a well-formed program (every function stored under its own tid) satisfies the precondition of get_program_callgraph
+pub proof fn lemma_cgb_wf_pre(subs: Map<Tid, Term<Sub>>)
+    requires cgb_wf(subs),
+    ensures cgb_pre(subs),
+{
+}
 
 /// an iteration position determines its key (the keys of an iteration are pairwise different)
 pub proof fn lemma_cgb_iter_inj(s: Seq<(&Tid, &Term<Sub>)>, m: Map<Tid, Term<Sub>>, i: int, j: int)
